@@ -163,9 +163,11 @@ CallsOK(mm) == \A n \in LiveNodes(mm) : mm.nodes[n].dom # "" => FuncGraph(mm, mm
 WFids(mm) == /\ \A i \in 1..Len(Roots(mm)) : LET gg == ToG(mm, Roots(mm)[i], TRUE) IN G!Scoped(gg, {}) /\ G!OutputsOK(gg)
              /\ CallsOK(mm)
 \* the serialised model: the same by NAME, plus scope-chain SSA, plus opset imports
-WFnames(mm) == \A i \in 1..Len(Roots(mm)) :
-                 LET gg == ToG(mm, Roots(mm)[i], FALSE) IN
-                 G!Scoped(gg, {}) /\ G!OutputsOK(gg) /\ ScopedSSA(gg, {}) /\ G!ImportsOK(gg, mm.graphs[Roots(mm)[i]].imports)
+WFscoped(mm) == \A i \in 1..Len(Roots(mm)) :
+                  LET gg == ToG(mm, Roots(mm)[i], FALSE) IN
+                  G!Scoped(gg, {}) /\ G!OutputsOK(gg) /\ G!ImportsOK(gg, mm.graphs[Roots(mm)[i]].imports)
+WFssa(mm) == \A i \in 1..Len(Roots(mm)) : ScopedSSA(ToG(mm, Roots(mm)[i], FALSE), {})
+WFnames(mm) == WFscoped(mm) /\ WFssa(mm)
 
 -----------------------------------------------------------------------------
 (* rules.  Patterns and replacements (r == p by construction, r not an instance of p):            *)
@@ -766,6 +768,10 @@ DoneOKm(mm) == /\ ~h.raised
                /\ SigOK(mm) /\ FrameOK(mm)
                /\ (h.any => eng.count >= 1)
 DoneOK == DoneOKm(m)
+\* which clauses fail (for the emitted case)
+Fails == (IF h.raised THEN <<"raised">> ELSE <<>>) \o (IF WFids(m) THEN <<>> ELSE <<"structure">>) \o (IF WFscoped(m) THEN <<>> ELSE <<"names">>)
+         \o (IF WFssa(m) THEN <<>> ELSE <<"ssa">>) \o (IF EvalModel(m) = h.ref THEN <<>> ELSE <<"eval">>) \o (IF SigOK(m) THEN <<>> ELSE <<"signature">>)
+         \o (IF FrameOK(m) THEN <<>> ELSE <<"frame">>) \o (IF h.any => eng.count >= 1 THEN <<>> ELSE <<"progress">>)
 Holds == /\ StepWF /\ StepEval /\ Terminates
          /\ (phase = "done" => DoneOK)
 \* design run (Deviations = {}): the property
@@ -804,7 +810,7 @@ Emit == phase = "done" /\ eng.devs = Deviations =>
                            orig |-> MJ(h.orig), after |-> MJ(h.after), final |-> MJ(m), count |-> eng.count, raised |-> h.raised,
                            why |-> SortedWhy, ref |-> h.ref, any |-> h.any,
                            matched |-> [i \in 1..Len(h.apps) |-> [rule |-> h.apps[i].rule, srcs |-> [k \in 1..Len(h.apps[i].nodes) |-> m.nodes[h.apps[i].nodes[k]].src]]],
-                           ok |-> DoneOK])>>)
+                           ok |-> DoneOK, fails |-> Fails])>>)
 
 -----------------------------------------------------------------------------
 (* rule sets *)
